@@ -4,6 +4,7 @@ import (
 	"fmt"
 	"go/token"
 	"go/types"
+	"sort"
 	"strings"
 
 	"aghverif/core"
@@ -20,6 +21,8 @@ func init() {
 			"(D3) window constants: the chunk buffer is re-read whenever fewer bytes than the 16 KiB entry limit lie between its start and the read position (unless it starts at the file start), the chunk is at least that large and the same constant is used for the seek offset, the bound test and the allocation; the probe window reaches one entry limit back and is allocated one entry limit beyond — necessary for a line shorter than the limit to lie completely inside the buffer. " +
 			"(D4) when the multi-file reader shifts to the older file it positions that file at its start before reading from it. " +
 			"(D5) the buffered window belongs to a position: every function that moves qLogFile.position other than the sequential reader (which moves it to the line readNextLine just returned) empties the buffer first. " +
+			"(D6) where the file reader looks for a byte with an Index-style library search, the result is tested as 'not negative' (a hit at offset 0 is a hit). " +
+			"(D2, cont.) every turn of the multi-file seek's loop runs that file's own timestamp search. " +
 			"Not decided: 'every line exactly once, in reverse order' and the exact position after a seek — arithmetic over runtime offsets.",
 		RuleText:    "Natural loops from SSA dominators; four variant idioms; CFG edge guards for the result classes.",
 		Assumptions: []string{"os.File Read/Seek terminate"},
@@ -235,7 +238,7 @@ func runC20(c *Ctx) {
 	early := isErr("too-early", true)
 	var starts []core.Point
 	for e := range early {
-		starts = append(starts, core.Point{Block: e.From.Succs[e.Succ], Idx: 0})
+		starts = append(starts, core.AfterEdge(e))
 	}
 	hdrs := loopHeaders(rs)
 	leaves := true
@@ -247,7 +250,7 @@ func runC20(c *Ctx) {
 	nf := isErr("not-found", true)
 	var st2 []core.Point
 	for e := range nf {
-		st2 = append(st2, core.Point{Block: e.From.Succs[e.Succ], Idx: 0})
+		st2 = append(st2, core.AfterEdge(e))
 	}
 	okNF := true
 	if len(st2) > 0 {
@@ -273,6 +276,140 @@ func runC20(c *Ctx) {
 	c20Windows(c)
 	c20Shift(c)
 	c20BufferFollowsPosition(c)
+	c20IndexTests(c)
+	c20EveryFileSearched(c)
+}
+
+// c20EveryFileSearched: D2 (cont.) — the multi-file seek moves on to an older
+// file only on the verdict of the file's own binary search: every turn of its
+// loop over the files passes that file's seekTS.  A shortcut that decides from
+// elsewhere that "the timestamp cannot be in this file" skips the entries the
+// search would have found (its boundary cases are the search's business).
+func c20EveryFileSearched(c *Ctx) {
+	p, r := c.P, c.R
+	var rs *ssa.Function
+	for _, k := range []string{"(*querylog.qLogReader).seekTSFound", "(*querylog.qLogReader).seekTS"} {
+		if f := p.Fn(k); f != nil && len(core.CallsTo(f, "(*querylog.qLogFile).seekTS")) > 0 {
+			rs = f
+			break
+		}
+	}
+	if rs == nil {
+		r.Undecided("C20-D2", "multi-file-seek-loop", "-", "anchor not found")
+		return
+	}
+	isSeek := core.IsCallTo(false, "(*querylog.qLogFile).seekTS")
+	n := 0
+	okAll := true
+	var tr []*ssa.BasicBlock
+	for _, h := range loopHeaders(rs) {
+		body := loopBody(h)
+		has := false
+		for b := range body {
+			for _, in := range b.Instrs {
+				if isSeek(in) {
+					has = true
+				}
+			}
+		}
+		if !has {
+			continue
+		}
+		n++
+		if ok, t := everyCyclePasses(h, body, isSeek); !ok {
+			okAll = false
+			tr = t
+		}
+	}
+	r.Check(n > 0 && okAll, "C20-D2", "every-file-is-searched-by-its-own-seek", p.FnPos(rs),
+		"every turn of the loop over the log files runs that file's own timestamp search",
+		"the loop over the log files can move on to the older file without having run the file's own timestamp search: an entry the search would find (the oldest entry of a file, say) is reported as not found", p.TraceString(tr))
+}
+
+// c20IndexTests: D6 — a line terminator can sit at the very position a search
+// starts from (a probe offset that lands on the '\n' of the probed line): where
+// the file reader looks for a byte with an Index-style library search, "found"
+// means "not negative"; a test that excludes offset 0 drops exactly that case
+// and the probe then returns the line glued to everything behind it.
+func c20IndexTests(c *Ctx) {
+	p, r := c.P, c.R
+	isIndex := func(k string) bool {
+		switch k {
+		case "bytes.IndexByte", "bytes.LastIndexByte", "bytes.Index", "bytes.LastIndex", "bytes.IndexFunc", "bytes.IndexAny", "bytes.IndexRune",
+			"strings.IndexByte", "strings.LastIndexByte", "strings.Index", "strings.LastIndex", "strings.IndexFunc", "strings.IndexAny", "strings.IndexRune",
+			"slices.Index", "slices.IndexFunc":
+			return true
+		}
+		return strings.HasPrefix(k, "slices.Index[") || strings.HasPrefix(k, "slices.IndexFunc[")
+	}
+	n := 0
+	var bad []string
+	for _, fn := range p.ModFnsIn("querylog") {
+		if !strings.Contains(core.FuncKey(fn), "qLogFile") && !strings.Contains(core.FuncKey(fn), "qLogReader") {
+			continue
+		}
+		for _, call := range core.Calls(fn) {
+			if !isIndex(call.Key) {
+				continue
+			}
+			v, _ := call.Instr.(ssa.Value)
+			if v == nil {
+				continue
+			}
+			// comparisons of the result (through integer conversions) with a constant
+			var visit func(x ssa.Value, d int)
+			visit = func(x ssa.Value, d int) {
+				for _, u := range core.Users(x) {
+					switch y := u.(type) {
+					case *ssa.Convert:
+						if d < 3 {
+							visit(y, d+1)
+						}
+					case *ssa.BinOp:
+						op, other := y.Op, y.Y
+						if y.Y == x {
+							other = y.X
+							op = flipCmp(op)
+						}
+						k, isK := core.ConstInt(other)
+						if !isK {
+							continue
+						}
+						switch op {
+						case token.EQL, token.NEQ, token.LSS, token.LEQ, token.GTR, token.GEQ:
+						default:
+							continue
+						}
+						n++
+						ok := (k == 0 && (op == token.GEQ || op == token.LSS)) || (k == -1 && (op == token.EQL || op == token.NEQ || op == token.GTR || op == token.LEQ))
+						if !ok {
+							bad = append(bad, fmt.Sprintf("%s: result of %s tested with %s %d", p.InstrPos(y), call.Key, op, k))
+						}
+					}
+				}
+			}
+			visit(v, 0)
+		}
+	}
+	r.Info["C20-D6_index_tests_examined"] = n
+	sort.Strings(bad)
+	r.Check(len(bad) == 0, "C20-D6", "found-means-not-negative", "-",
+		"every test of a byte/substring search result in the file reader treats offset 0 as found",
+		"a search result in the file reader is tested in a way that takes a hit at offset 0 for 'not found': a probe or read that starts exactly on a line terminator returns the wrong line boundaries", bad...)
+}
+
+func flipCmp(op token.Token) token.Token {
+	switch op {
+	case token.LSS:
+		return token.GTR
+	case token.LEQ:
+		return token.GEQ
+	case token.GTR:
+		return token.LSS
+	case token.GEQ:
+		return token.LEQ
+	}
+	return op
 }
 
 // c20Sequential: the writers of qLogFile.position that move it line by line
@@ -468,7 +605,7 @@ func c20Windows(c *Ctx) {
 			})
 			isInit := core.IsCallTo(false, "(*querylog.qLogFile).initBuffer")
 			// every path from the edge reaches initBuffer before it touches the buffer, except through bufferStart == 0
-			found, _, _ := core.Reach(core.Query{From: []core.Point{{Block: e.From.Succs[e.Succ], Idx: 0}}, Target: func(in ssa.Instruction) bool {
+			found, _, _ := core.Reach(core.Query{From: []core.Point{core.AfterEdge(e)}, Target: func(in ssa.Instruction) bool {
 				if ia, ok := in.(*ssa.IndexAddr); ok {
 					if fr, _, ok := core.LoadedField(ia.X); ok && fr.Field == "buffer" {
 						return true
@@ -498,7 +635,7 @@ func c20Windows(c *Ctx) {
 		gt, sub, mk, ph := posConsts(rp)
 		ok := len(gt) == 1 && len(sub) == 1 && len(mk) == 1 && len(ph) >= 1 && gt[0] == sub[0] && gt[0] >= limit && mk[0] >= gt[0]+limit
 		for _, k := range ph {
-			if k != gt[0] {
+			if len(gt) == 0 || k != gt[0] {
 				ok = false
 			}
 		}
